@@ -461,10 +461,21 @@ C19_LEVEL = {"Or": 1, "And": 2, "BoolNot": 3, "Eq": 4, "Ne": 4, "Lt": 4, "Le": 4
 C19_UNARY = ("Neg", "BitNot", "BoolNot")
 
 
+# right operand at the SAME level as its parent: `P(x, C(y, z))` printed without parentheses reads
+# (left-associatively) as `C'(P'(x, y), z)`.  That is the same value exactly for these pairs, which
+# are identities of two's-complement wrapping arithmetic with null propagation (x*(y*z) = (x*y)*z,
+# x+(y+z) = (x+y)+z incl. string concatenation, x+(y-z) = (x+y)-z, bitwise and logical operators);
+# everywhere else (x-(y+z), x-(y-z), x*(y/z), x/(y*z), x/(y/z), shifts, comparisons) parentheses
+# are needed.  Redundant parentheses are never demanded away.
+C19_ASSOC = {("Mul", "Mul"), ("Add", "Add"), ("Add", "Sub"), ("BitAnd", "BitAnd"), ("BitOr", "BitOr"),
+             ("BitXor", "BitXor"), ("And", "And"), ("Or", "Or")}
+
+
 def c19_needs_parens(parent, slot, child):
     """Reference predicate written from the ladder: binary levels are
     left-associative; a child binding looser than its parent needs parentheses;
-    in the right slot of a binary parent an equal level needs them too."""
+    in the right slot of a binary parent an equal level needs them too, except
+    where re-association provably does not change the value (C19_ASSOC)."""
     lp, lc = C19_LEVEL[parent], C19_LEVEL[child]
     if lc == 12:
         return False
@@ -472,7 +483,9 @@ def c19_needs_parens(parent, slot, child):
         return lc < lp
     if slot == 0:
         return lc < lp
-    return lc <= lp
+    if lc == lp:
+        return (parent, child) not in C19_ASSOC
+    return lc < lp
 
 
 def c19_models(events_sink):
@@ -803,10 +816,106 @@ def mir_path_of(mir):
 
 
 # --------------------------------------------------------------------------
+# C20 / C09: the integer prefix of Table::read_rows (row size, row count, limit)
+# --------------------------------------------------------------------------
+
+def c20_groups(mir, ctx):
+    """read_rows itself is out of Kani's reach (measured); its integer prefix --
+    from the seek result to the row-limit check -- is loop-free MIR once the
+    iterator chain that sums the column widths is replaced by a fresh u64."""
+    fns = ["table::Table::read_rows (prefix: seek .. row-limit check)"]
+    fn = mir.find(r"table::.*::read_rows$")
+    D = ctx.fresh_int("data_length", "u64")
+    S = ctx.fresh_int("row_size", "u64")
+    NC = ctx.fresh_int("num_columns", "usize")
+
+    def ok(v):
+        return EnumV(variant=0, fields=[v])
+
+    def m_seek(ex, callee, args, pc, events):
+        # Ok(any u64) or Err: both explored
+        return [(pc, events, ok(D)), (pc, events + [("seek-failed",)], EnumV(variant=1, fields=[OpaqueV("io::Error")]))]
+
+    def m_rewind(ex, callee, args, pc, events):
+        return [(pc, events, ok(TupleV([])))]
+
+    def m_branch(ex, callee, args, pc, events):
+        r = deref(args[0])
+        if r.variant == 0:
+            return [(pc, events, EnumV(variant=0, fields=[r.fields[0]]))]
+        return [(pc, events, EnumV(variant=1, fields=[r]))]
+
+    def m_opaque(name):
+        return lambda ex, callee, args, pc, events: [(pc, events, OpaqueV(name))]
+
+    def m_sum(ex, callee, args, pc, events):
+        return [(pc, events, S)]
+
+    def m_len(ex, callee, args, pc, events):
+        return [(pc, events, NC)]
+
+    def m_from_residual(ex, callee, args, pc, events):
+        return [(pc, events + [("early-error-return",)], EnumV(variant=1, fields=[OpaqueV("io::Error")]))]
+
+    models = [
+        (r"as Seek>::seek$", m_seek), (r"as Seek>::rewind$", m_rewind), (r"as Try>::branch$", m_branch),
+        (r"as FromResidual<.*>>::from_residual$", m_from_residual),
+        (r"as Deref>::deref$", m_opaque("slice")), (r"impl \[Column\]>::iter$", m_opaque("iter")),
+        (r"as Iterator>::map::<", m_opaque("map")), (r"as Iterator>::sum::<u64>$", m_sum), (r"Vec::<Column>::len$", m_len),
+        (r"Argument::<'_>::new_display::<usize>$", m_opaque("fmtarg")), (r"Arguments::<'_>::new::<", m_opaque("fmtargs")),
+        (r"^format$", m_opaque("string")), (r"^must_use::<String>$", m_opaque("string")),
+        (r"std::io::Error::new::<String>$", m_opaque("io::Error")),
+    ]
+
+    def stop_at(f, bb, term):
+        if "Vec::<ValueRef>::with_capacity" in term:
+            return "allocate"
+        if re.match(r"_0 = Result::<.*>::Err\(", " ".join(f.blocks[bb][0][-1:])) and term.startswith("goto"):
+            return "limit-error"
+        return None
+
+    ex = M.Exec(mir, ctx, models=models, stop_at=stop_at)
+    table = RefV(TupleV([OpaqueV("name"), OpaqueV("columns"), OpaqueV("long_refs")]))
+    outs = ex.run(fn, [table, OpaqueV("reader")])
+    outs = outs + ex._pending_panics
+    ex._pending_panics = []
+    LIMIT = 65536
+    rows = "(div %s %s)" % (D.term, S.term)
+    over = "(and (> %s 0) (> %s %d))" % (S.term, rows, LIMIT)
+    g = Group("row_limit_reader", fns, note="for every stream length and row size: no division by zero / overflow panic; the "
+              "reader allocates only when data_length / row_size <= 65536 and reports an error exactly when it is larger")
+    n_alloc = n_err = 0
+    for k, o in enumerate(outs):
+        if o.kind == "panic":
+            g.queries.append(Query("panic_%d" % k, o.pc, "unsat", get={"data_length": D.term, "row_size": S.term}, note=o.msg))
+        elif o.kind == "stopped" and o.msg == "allocate":
+            n_alloc += 1
+            g.queries.append(Query("alloc_over_limit_%d" % k, o.pc + [over], "unsat", get={"data_length": D.term, "row_size": S.term},
+                                   note="allocation reached although the row count exceeds the limit"))
+            # the number of rows allocated is the quotient (or 0 for a zero row size)
+            nr = deref(o.value.get("_23")) if isinstance(o.value, dict) and "_23" in o.value else None
+            if isinstance(nr, IntV):
+                g.queries.append(Query("alloc_rows_%d" % k, o.pc + ["(not (= %s (ite (> %s 0) %s 0)))" % (nr.term, S.term, rows)], "unsat",
+                                       get={"data_length": D.term, "row_size": S.term}, note="row count differs from data_length / row_size"))
+            g.witness.append(Query("alloc_w_%d" % k, o.pc, "sat"))
+        elif o.kind == "stopped" and o.msg == "limit-error":
+            n_err += 1
+            g.queries.append(Query("err_under_limit_%d" % k, o.pc + [s_not(over)], "unsat", get={"data_length": D.term, "row_size": S.term},
+                                   note="the row-limit error is reported although the row count is within the limit"))
+            g.witness.append(Query("err_w_%d" % k, o.pc, "sat"))
+        elif o.kind == "return":
+            # early error returns (seek failed): fine
+            pass
+    if n_alloc == 0 or n_err == 0:
+        raise EncodingError("read_rows prefix: expected an allocation path and a limit-error path (found %d / %d)" % (n_alloc, n_err))
+    return [g]
+
+
+# --------------------------------------------------------------------------
 # driver
 # --------------------------------------------------------------------------
 
-BUILDERS = {"C18": c18_groups, "C19": c19_groups, "C14": c14_groups}
+BUILDERS = {"C18": c18_groups, "C19": c19_groups, "C14": c14_groups, "C20": c20_groups, "C09": c20_groups}
 
 
 def native_confirm_c18(vals, work):
@@ -887,14 +996,25 @@ def run_property(pid, tier, work, known_by_id, replay_dir):
                 res["records"].append(rec)
                 continue
             if g.confirm and (withmodel or bad):
-                try:
-                    q0 = (withmodel or bad)[0]
-                    model = dict(q0.model or {})
-                    for kv in re.findall(r"(\w+)=(\w+)", q0.note or ""):
-                        model.setdefault(kv[0], kv[1])
-                    reproduced, detail = g.confirm(model, native)
-                except Exception as e:  # noqa
-                    reproduced, detail = None, "native replay failed to run: %r" % (e,)
+                # replay the counterexamples natively until one reproduces (distinct notes first)
+                seen, tried = set(), 0
+                for q0 in (withmodel or bad):
+                    key = q0.note or q0.name
+                    if key in seen or tried >= 40:
+                        continue
+                    seen.add(key)
+                    tried += 1
+                    try:
+                        model = dict(q0.model or {})
+                        for kv in re.findall(r"(\w+)=(\w+)", q0.note or ""):
+                            model.setdefault(kv[0], kv[1])
+                        reproduced, detail = g.confirm(model, native)
+                    except Exception as e:  # noqa
+                        reproduced, detail = None, "native replay failed to run: %r" % (e,)
+                    with open(rp, "a") as f:
+                        f.write("native replay of %s: reproduced=%s -- %s\n" % (q0.name, reproduced, detail))
+                    if reproduced:
+                        break
             with open(rp, "a") as f:
                 f.write("native replay: reproduced=%s -- %s\n" % (reproduced, detail))
             rec["replay_reproduced"] = reproduced
